@@ -23,6 +23,11 @@ pub fn resolve_res(
         &mut expr::EvalContext::new(),
         &ast_res.expr)?;
 
+    asm::resolver::check_failed_constraint(
+        report,
+        ctx,
+        &value)?;
+
     let value = value.expect_error_or_bigint(
         report,
         ast_res.expr.span())?;
